@@ -170,6 +170,13 @@ theorem unreachable_iff_deprecated_symbol (rhs : List RSym) :
     obtain ⟨s, _, hs⟩ := List.mem_map.1 this
     cases s <;> cases hs
 
+/-- The refined fold is the model's: on terminals and non-terminals it computes the parts of
+    `KS.compileParts` (one part per non-terminal, one per maximal terminal run), the function under
+    the FIRST_k/FOLLOW_k models of C06 and their differential ties. -/
+theorem compile_production_equation_refines (ss : List Sym) :
+    partsOf (ss.map embedSym) = some ((compileParts ss).map embedPart) :=
+  partsOf_embed ss
+
 /-! ## decision: the cache slots -/
 
 /-- Site `FirstCache::get` (`self.0[k]`, three times, on `MAX_K + 1` slots): with the slot test
